@@ -32,8 +32,28 @@ impl<E> Err<E> {
 
 pub mod error {
     use vstd::prelude::*;
-    pub enum ErrorKind { Tag, Char, Digit, TakeWhile1, MapRes, Other }
+    /// nom 7.1's error kinds (all of them, so that an edit that names another one still compiles against the stand-in); `Other` is not nom's
+    pub enum ErrorKind { Tag, Char, Digit, TakeWhile1, MapRes, Other, MapOpt, Alt, IsNot, IsA, SeparatedList, SeparatedNonEmptyList, Many0, Many1, ManyTill, Count,
+        TakeUntil, LengthValue, TagClosure, Alpha, HexDigit, OctDigit, AlphaNumeric, Space, MultiSpace, LengthValueFn, Eof, Switch, TagBits, OneOf, NoneOf, CrLf,
+        RegexpMatch, RegexpMatches, RegexpFind, RegexpCapture, RegexpCaptures, Complete, Fix, Escaped, EscapedTransform, NonEmpty, ManyMN, Not, Permutation, Verify,
+        TakeTill1, TakeWhileMN, TooLarge, Many0Count, Many1Count, Float, Satisfy, Fail }
     pub struct Error<I> { pub input: I, pub code: ErrorKind }
+    impl<I> Error<I> {
+        pub fn new(input: I, code: ErrorKind) -> (r: Self) ensures r.input == input, r.code == code { Error { input, code } }
+    }
+    // nom's ParseError trait: plain Rust, no contract (only what an edit may call to build an error value)
+    #[verifier::external]
+    pub trait ParseError<I>: Sized {
+        fn from_error_kind(input: I, kind: ErrorKind) -> Self;
+        fn append(input: I, kind: ErrorKind, other: Self) -> Self;
+    }
+    #[verifier::external]
+    impl<I> ParseError<I> for Error<I> {
+        fn from_error_kind(input: I, kind: ErrorKind) -> Self { Error { input, code: kind } }
+        fn append(_: I, _: ErrorKind, other: Self) -> Self { other }
+    }
+    #[verifier::external]
+    pub fn make_error<I, E: ParseError<I>>(input: I, kind: ErrorKind) -> E { E::from_error_kind(input, kind) }
 }
 
 pub type IResult<I, O, E = error::Error<I>> = Result<(I, O), Err<E>>;
